@@ -2,7 +2,7 @@
    Response functions range over a deep-embedded grammar (+ - * / integer powers exp sqrt, repeated variables);
    evalR e x is the point value, the strategies are the models of b2b.py. *)
 From Coq Require Import Reals Lra List.
-From PUN Require Import Base.Num Model.Interval Model.IntervalFun Model.Pbox Model.B2B Proofs.IntervalOps Proofs.B2B.
+From PUN Require Import Base.Num Model.Interval Model.IntervalFun Model.Pbox Model.B2B Proofs.IntervalOps Proofs.B2B Proofs.Iso.
 Import ListNotations.
 Open Scope R_scope.
 
@@ -22,6 +22,16 @@ Theorem C13_sub_direct_encloses e xs box n r : (1 <= n)%nat -> in_box xs box ->
   (forall tb, In tb (subintervalise RN box n) -> wf_box tb) ->
   sub_direct RN fexp fpow e box n = Ok r -> in_pr (eval RN fexp fpow e xs) r.
 Proof. exact (sub_direct_encloses fexp fpow fexp_is fpow_is e xs box n r). Qed.
+(* every tile is a well-formed box inside the input box; hence the hypothesis above holds for every well-formed box, and the
+   reconstituted result lies inside the un-subdivided direct result (functions whose powers have positive exponents) *)
+Theorem C13_tiles_inside box n tb : wf_box box -> (1 <= n)%nat -> In tb (subintervalise RN box n) -> wf_box tb /\ Forall2 sub_pr tb box.
+Proof. exact (tiles_inside box n tb). Qed.
+Theorem C13_sub_direct_encloses_wf e xs box n r : (1 <= n)%nat -> in_box xs box -> wf_box box ->
+  sub_direct RN fexp fpow e box n = Ok r -> in_pr (eval RN fexp fpow e xs) r.
+Proof. intros Hn Hb W. apply (sub_direct_encloses fexp fpow fexp_is fpow_is e xs box n r Hn Hb). intros tb Hin. exact (proj1 (tiles_inside box n tb W Hn Hin)). Qed.
+Theorem C13_sub_direct_inside_direct e box n r D : pos_pows e -> wf_box box -> (1 <= n)%nat ->
+  sub_direct RN fexp fpow e box n = Ok r -> direct RN fexp fpow e box = Ok D -> sub_pr r D.
+Proof. exact (sub_direct_inside_direct fexp fpow fexp_is fpow_is e box n r D). Qed.
 (* the vertex method returns exactly the min / max over the 2^d corners, both attained inside the box *)
 Theorem C13_endpoints_minmax e box r : endpoints RN fexp fpow e box = Ok r ->
   forall c, In c (corners RN box) -> fst r <= eval RN fexp fpow e c <= snd r.
